@@ -4,6 +4,7 @@ package main
 import (
 	"fmt"
 	"os"
+	"runtime/pprof"
 )
 
 type subcmd func(args []string) error
@@ -20,7 +21,15 @@ func main() {
 		fmt.Fprintf(os.Stderr, "unknown subcommand %q\n", os.Args[1])
 		os.Exit(2)
 	}
+	if pf := os.Getenv("VH_CPUPROFILE"); pf != "" {
+		f, err := os.Create(pf)
+		if err == nil {
+			_ = pprof.StartCPUProfile(f)
+			defer pprof.StopCPUProfile()
+		}
+	}
 	if err := fn(os.Args[2:]); err != nil {
+		pprof.StopCPUProfile()
 		fmt.Fprintf(os.Stderr, "vh %s: %v\n", os.Args[1], err)
 		os.Exit(2)
 	}
